@@ -1,6 +1,6 @@
 use std::collections::HashSet;
 
-use crate::{DbIndex, LuaMemberKey};
+use crate::{DbIndex, LuaMemberKey, LuaType, LuaTypeDeclId};
 
 #[derive(Debug, Clone, PartialEq, Eq)]
 pub enum TypeCheckCheckLevel {
@@ -14,6 +14,10 @@ pub struct TypeCheckContext<'db> {
     pub db: &'db DbIndex,
     pub level: TypeCheckCheckLevel,
     pub table_member_checked: Option<HashSet<LuaMemberKey>>,
+    /// `(alias, compact type)` pairs whose alias origin is being checked further up the call stack.
+    /// Meeting one of them again means the aliases are recursive: the check answers `TypeRecursion`
+    /// at once instead of unfolding the same pair again below every union member.
+    pub alias_in_progress: Vec<(LuaTypeDeclId, LuaType)>,
 }
 
 impl<'db> TypeCheckContext<'db> {
@@ -23,6 +27,7 @@ impl<'db> TypeCheckContext<'db> {
             db,
             level,
             table_member_checked: None,
+            alias_in_progress: Vec::new(),
         }
     }
 
